@@ -17,11 +17,13 @@ import (
 	"encoding/base64"
 	"encoding/binary"
 	"encoding/hex"
+	"errors"
 	"fmt"
 	"math/rand"
 	"net"
 	"net/http"
 	"net/http/httptest"
+	"os"
 	"strings"
 	"sync"
 	"testing"
@@ -121,6 +123,21 @@ func (c *vc08PacketConn) WriteTo(b []byte, _ net.Addr) (n int, err error) {
 
 func (c *vc08PacketConn) SetWriteDeadline(time.Time) error { return nil }
 func (c *vc08PacketConn) LocalAddr() net.Addr              { return vc08LocalUDP }
+
+// vc08SessionPacketConn is the same recorder behind the session interface
+// that the production listeners (netext with OOB data, bindtodevice) implement;
+// netext.WriteToSession takes another branch for it.
+type vc08SessionPacketConn struct {
+	*vc08PacketConn
+}
+
+func (c *vc08SessionPacketConn) ReadFromSession(_ []byte) (n int, s netext.PacketSession, err error) {
+	return 0, nil, net.ErrClosed
+}
+
+func (c *vc08SessionPacketConn) WriteToSession(b []byte, s netext.PacketSession) (n int, err error) {
+	return c.vc08PacketConn.WriteTo(b, s.RemoteAddr())
+}
 
 // vc08StreamConn records a byte stream.
 type vc08StreamConn struct {
@@ -269,6 +286,17 @@ type vc08Env struct {
 	mode    vc08HandlerMode
 	foreign *dns.Msg
 
+	// failErr is what the handler returns in mode vc08HErrNoWrite; failKind
+	// names it.
+	failErr  error
+	failKind string
+
+	// built are plain-DNS servers whose configured UDP maximum went through
+	// NewServerDNS, next to read-buffer sizes that differ from every maximum.
+	built map[uint16]*ServerDNS
+	// sessionConn makes the UDP path write through a netext.SessionPacketConn.
+	sessionConn bool
+
 	// h, when set, replaces the handler altogether (concurrent part).
 	h HandlerFunc
 }
@@ -297,6 +325,36 @@ var vc08HModeNames = [...]string{"normal", "req-copy", "foreign-req", "error-no-
 
 func (m vc08HandlerMode) String() string { return vc08HModeNames[m] }
 
+// vc08TimeoutErr is a net.Error; timeout says what Timeout() reports.
+type vc08TimeoutErr struct{ timeout bool }
+
+func (e *vc08TimeoutErr) Error() string {
+	return fmt.Sprintf("vc08: upstream i/o (timeout: %v)", e.timeout)
+}
+func (e *vc08TimeoutErr) Timeout() bool   { return e.timeout }
+func (e *vc08TimeoutErr) Temporary() bool { return false }
+
+// vc08FailKinds are the error classes serveDNSMsgInternal can be handed by a
+// handler that did not write: it adds an extended error to its SERVFAIL for
+// the timeout-like ones (isNonCriticalNetError) and not for the others.
+var vc08FailKinds = []struct {
+	name    string
+	timeout bool
+	err     error
+}{
+	{"generic", false, errors.New("vc08: handler failed before writing")},
+	{"context-canceled", false, context.Canceled},
+	{"net-error-no-timeout", false, &vc08TimeoutErr{timeout: false}},
+	{"context-deadline", true, context.DeadlineExceeded},
+	{"os-deadline", true, os.ErrDeadlineExceeded},
+	{"net-error-timeout", true, &vc08TimeoutErr{timeout: true}},
+	{"op-error-timeout", true, &net.OpError{Op: "read", Net: "udp", Err: os.ErrDeadlineExceeded}},
+	{"wrapped-context-deadline", true, fmt.Errorf("forwarding: %w", context.DeadlineExceeded)},
+	{"wrapped-os-deadline", true, fmt.Errorf("forwarding: %w", fmt.Errorf("upstream: %w", os.ErrDeadlineExceeded))},
+	{"joined-timeout", true, errors.Join(errors.New("first upstream refused"), &vc08TimeoutErr{timeout: true})},
+	{"wrapped-canceled", false, fmt.Errorf("forwarding: %w", context.Canceled)},
+}
+
 // ownResponse reports whether whatever the client gets is built by the server
 // itself rather than by the handler.
 func (m vc08HandlerMode) ownResponse() bool { return m == vc08HErrNoWrite || m == vc08HSilent }
@@ -308,6 +366,9 @@ func (e *vc08Env) setDisposer(d Disposer) {
 	e.doh.disposer = d
 	e.doq.disposer = d
 	e.dc.disposer = d
+	for _, s := range e.built {
+		s.disposer = d
+	}
 }
 
 const vc08IdleTimeout = 30 * time.Second
@@ -322,7 +383,7 @@ func vc08NewEnv() (e *vc08Env) {
 		e.handled++
 		switch e.mode {
 		case vc08HErrNoWrite:
-			return fmt.Errorf("vc08: handler failed before writing")
+			return e.failErr
 		case vc08HSilent:
 			return nil
 		case vc08HReqCopy:
@@ -349,6 +410,17 @@ func vc08NewEnv() (e *vc08Env) {
 	}
 
 	e.plain = NewServerDNS(ConfigDNS{ConfigBase: base("vc08-dns", NetworkAny), TCPIdleTimeout: vc08IdleTimeout})
+	e.built = map[uint16]*ServerDNS{}
+	for i, c := range []uint16{512, 1232, 4096} {
+		e.built[c] = NewServerDNS(ConfigDNS{
+			ConfigBase:     base(fmt.Sprintf("vc08-dns-%d", c), NetworkAny),
+			TCPIdleTimeout: vc08IdleTimeout,
+			UDPSize:        2048 + i,
+			TCPSize:        3072 + i,
+			MaxUDPRespSize: c,
+		})
+	}
+
 	e.dot = NewServerTLS(ConfigTLS{ConfigDNS: ConfigDNS{ConfigBase: base("vc08-dot", NetworkTCP), TCPIdleTimeout: vc08IdleTimeout}}).ServerDNS
 	e.doh = NewServerHTTPS(ConfigHTTPS{ConfigBase: base("vc08-doh", NetworkTCP)})
 	e.doq = NewServerQUIC(ConfigQUIC{ConfigBase: base("vc08-doq", NetworkUDP)})
@@ -385,7 +457,10 @@ func (e *vc08Env) serveRaw(tr vc08Transport, cap uint16, reqBytes []byte, dohGet
 	switch tr {
 	case vc08UDP:
 		s := e.plain
-		if s.conf.MaxUDPRespSize != cap {
+		if b := e.built[cap]; b != nil {
+			// The maximum reached the server through its constructor.
+			s = b
+		} else if s.conf.MaxUDPRespSize != cap {
 			s.conf.MaxUDPRespSize = cap
 		}
 
@@ -394,8 +469,13 @@ func (e *vc08Env) serveRaw(tr vc08Transport, cap uint16, reqBytes []byte, dohGet
 
 		ctx = ContextWithRequestInfo(ctx, &RequestInfo{StartTime: time.Now()})
 		pc := &vc08PacketConn{}
+		var conn net.PacketConn = pc
+		if e.sessionConn {
+			conn = &vc08SessionPacketConn{vc08PacketConn: pc}
+		}
+
 		s.wg.Add(1)
-		s.serveUDPPacket(ctx, bytes.Clone(reqBytes), pc, netext.NewSimplePacketSession(vc08LocalUDP, vc08RemoteUDP))
+		s.serveUDPPacket(ctx, bytes.Clone(reqBytes), conn, netext.NewSimplePacketSession(vc08LocalUDP, vc08RemoteUDP))
 		switch len(pc.wrote) {
 		case 0:
 		case 1:
@@ -954,6 +1034,42 @@ func vc08GenResp(t *rapid.T, tr vc08Transport, req *dns.Msg, rf vc08ReqFacts, li
 	return resp, f
 }
 
+// vc08FillRequest makes the query of a handler-fails case heavy, half of the
+// time: the padding option is (re)sized so that the packed query ends within a
+// few octets of 512 (the plain-UDP read buffer, and the smallest UDP limit), or
+// somewhere up to ~1100 octets on the other transports.  The server's own
+// SERVFAIL must not reflect any of it.
+func vc08FillRequest(t *rapid.T, tr vc08Transport, req *dns.Msg, rf *vc08ReqFacts) {
+	opt := req.IsEdns0()
+	if opt == nil || !rapid.Bool().Draw(t, "fillRequest") {
+		return
+	}
+
+	var pad *dns.EDNS0_PADDING
+	for _, o := range opt.Option {
+		if p, ok := o.(*dns.EDNS0_PADDING); ok {
+			pad = p
+		}
+	}
+
+	if pad == nil {
+		pad = &dns.EDNS0_PADDING{}
+		opt.Option = append(opt.Option, pad)
+	}
+
+	pad.Padding = nil
+	want := 512 - rapid.IntRange(0, 6).Draw(t, "fillShort")
+	if tr != vc08UDP && rapid.Bool().Draw(t, "fillLarge") {
+		want = rapid.IntRange(513, 1100).Draw(t, "fillTo")
+	}
+
+	if n := want - req.Len(); n > 0 {
+		pad.Padding = make([]byte, n)
+	}
+
+	rf.Pad = len(pad.Padding)
+}
+
 // vc08GenForeign returns a request that is not the client's: its copy with the
 // EDNS part replaced the way an upstream-bound clone or a careless middleware
 // would.
@@ -1085,6 +1201,9 @@ type vc08Obs struct {
 	writeErr error
 	panics   []string
 	mode     vc08HandlerMode
+
+	failKind    string
+	failTimeout bool
 }
 
 func vc08FindOpts(m *dns.Msg) (opts []*dns.OPT, misplaced int) {
@@ -1144,9 +1263,30 @@ func vc08Run(
 
 	out := e.serve(tr, cap, reqBytes, resp, dohGet)
 	ob := vc08Obs{handled: e.handled, writeErr: e.writeErr, panics: e.mtr.take(), mode: e.mode}
-	classes, violations = vc08Judge(fnd, &c, tr, out, ob)
+	if e.mode == vc08HErrNoWrite {
+		ob.failKind = e.failKind
+		for _, k := range vc08FailKinds {
+			if k.name == e.failKind {
+				ob.failTimeout = k.timeout
+			}
+		}
 
-	return c, classes, violations
+		c.Handler += ":" + e.failKind
+	}
+
+	if tr == vc08UDP {
+		if e.built[cap] != nil {
+			classes = append(classes, "udp-cap-through-constructor")
+		}
+
+		if e.sessionConn {
+			classes = append(classes, "udp-via-session-conn")
+		}
+	}
+
+	jc, jv := vc08Judge(fnd, &c, tr, out, ob)
+
+	return c, append(classes, jc...), jv
 }
 
 // vc08KnownDCFallback: the DNSCrypt handler answers a query that the handler
@@ -1166,6 +1306,27 @@ func vc08Judge(fnd *vc08Findings, c *vc08Case, tr vc08Transport, out vc08Out, ob
 	cls("handler:" + ob.mode.String())
 	if rf.Kind != "" {
 		cls("req-kind:" + rf.Kind)
+	}
+
+	if ob.mode == vc08HErrNoWrite && ob.handled == 1 {
+		if ob.failTimeout {
+			cls("server-servfail-after-timeout-error")
+		} else {
+			cls("server-servfail-after-other-error")
+		}
+
+		cls("fail:" + ob.failKind)
+		if rf.Pad >= 0 && !tr.encrypted() {
+			cls("server-servfail-request-had-padding-on-plain")
+		}
+
+		if rf.KeepAlive && tr != vc08TCP && tr != vc08DoT {
+			cls("server-servfail-request-had-keepalive-off-tcp")
+		}
+
+		if tr.datagram() && rf.Len >= limit-8 {
+			cls("server-servfail-request-near-udp-limit")
+		}
 	}
 
 	if rf.HasOpt {
@@ -1543,6 +1704,11 @@ func TestVerifC08Transports(t *testing.T) {
 		"foreign-req-judged-by-client-query", "req-kind:notimp", "req-kind:formerr", "req-kind:qr",
 		"req-keepalive-and-padding-on-dot", "padding-length-in-documented-range", "keepalive-timeout-as-documented",
 		"server-own-response",
+		"server-servfail-after-timeout-error", "server-servfail-after-other-error",
+		"server-servfail-request-had-padding-on-plain", "server-servfail-request-had-keepalive-off-tcp",
+		"server-servfail-request-near-udp-limit", "udp-cap-through-constructor", "udp-via-session-conn",
+		"fail:context-deadline", "fail:os-deadline", "fail:net-error-timeout", "fail:wrapped-context-deadline",
+		"fail:context-canceled", "fail:generic",
 	)
 	st.Finish(t)
 
@@ -1571,11 +1737,16 @@ func TestVerifC08Transports(t *testing.T) {
 		case m < 5:
 			e.mode = vc08HForeignReq
 			e.foreign = vc08GenForeign(t, req)
-		case m == 5:
+		case m < 8:
 			e.mode = vc08HErrNoWrite
-		case m == 6:
+			k := rapid.SampledFrom(vc08FailKinds).Draw(t, "failKind")
+			e.failErr, e.failKind = k.err, k.name
+			vc08FillRequest(t, tr, req, &rf)
+		case m == 8:
 			e.mode = vc08HSilent
 		}
+
+		e.sessionConn = tr == vc08UDP && rapid.Bool().Draw(t, "sessionConn")
 
 		// padAnswer draws the padding length from math/rand's global source;
 		// pin it to a drawn seed so that a case is a function of its draws.
